@@ -781,6 +781,9 @@ class Facts:
         self.inlined = {}
         if d.get("crate") == "rpm" and not os.environ.get("VERIF_NO_INLINE"):
             d = self._inline_new_helpers(d)
+        self.unrolled = {}
+        if d.get("crate") == "rpm" and not os.environ.get("VERIF_NO_UNROLL"):
+            d = self._unroll_array_loops(d)
         self.path = path
         self.crate = d["crate"]
         self.consts = {}
@@ -826,7 +829,24 @@ class Facts:
         return r[0]
 
     # ---- inlining of helpers the rules have never seen ---------------------------------------------
-    def _inline_new_helpers(self, d):
+    def splice(self, body, callee_suffixes):
+        """`body` with the named crate functions spliced in as well, although the rules know them (on demand: a rule about
+        `f` that has to see through `f`'s call to an anchored function `g` - e.g. a parser delegating to its sibling - asks
+        for it; the rules about `g` itself are unaffected).  A no-op when `body` does not call them."""
+        force = set()
+        for sfx in callee_suffixes:
+            for b in self.find(sfx):
+                if b.kind != "closure":
+                    force.add(b.path)
+        key = (body.path, tuple(sorted(force)))
+        cache = self.__dict__.setdefault("_splice_cache", {})
+        if key not in cache:
+            d = {"bodies": [b.d for b in self.body_list]}
+            nb = self._inline_new_helpers(d, force=force, only=body.path)
+            cache[key] = body if nb is body.d else Body(nb, self)
+        return cache[key]
+
+    def _inline_new_helpers(self, d, force=(), only=None):
         """A crate-local function that is not in rules/known_fns.txt was introduced after the rules were written -
         typically a helper extracted from a function the rules anchor on.  Its body is spliced into every caller
         (locals and blocks renumbered, arguments bound by assignments, `return` turned into an assignment of the
@@ -844,10 +864,10 @@ class Facts:
 
         def candidate(path):
             bd = by_path.get(path)
-            return (bd is not None and bd["kind"] != "closure" and path not in known and not bd.get("derived")
+            return (bd is not None and bd["kind"] != "closure" and (path not in known or path in force) and not bd.get("derived")
                     and len(bd["blocks"]) <= 200 and not bd.get("impl_trait"))
         if not any(candidate(p) for p in by_path):
-            return d
+            return by_path.get(only) if only is not None else d
 
         def callee_of(term):
             k = (term.get("func") or {}).get("k") or {}
@@ -968,12 +988,14 @@ class Facts:
                 i += 1
             stack.pop()
             if inl:
-                nb = dict(bd, blocks=blocks, locals=locals_, inlined=inl, inl_rets=inl_rets)
+                nb = dict(bd, blocks=blocks, locals=locals_, inlined=list(bd.get("inlined", [])) + inl, inl_rets=inl_rets)
             else:
                 nb = bd
             done[path] = nb
             return nb
 
+        if only is not None:
+            return process(only)
         out = []
         seen_paths = set()
         for bd in d["bodies"]:
@@ -990,6 +1012,308 @@ class Facts:
             out.append(nb)
         d = dict(d, bodies=out)
         return d
+
+    # ---- loops over a literal array become straight-line code ------------------------------------------------------
+    def _unroll_array_loops(self, d):
+        """`for x in [a, b, c] { body }` (also `for x in &arr` / `arr.iter()` with `let arr = [a, b, c]`) is rewritten, before any
+        rule runs, into `body[x := a]; body[x := b]; body[x := c]`: the loop blocks are copied once per element (plus a final copy
+        in which the iterator is exhausted), the k-th copy's `next()` call replaced by `Some(element k)` (`None` in the last), back
+        edges redirected to the next copy, and the locals that live only inside the loop renamed per copy.  A table-driven
+        rewrite of a sequence of statements (four `write_all`s driven from an array of fields) then reads like the sequence it
+        replaced - to every rule, not only to those that know about tables.  Bodies without such a loop are left untouched."""
+        out = []
+        for bd in d["bodies"]:
+            nb = bd
+            try:
+                for _round in range(8):
+                    nb2 = self._unroll_one(nb)
+                    if nb2 is None:
+                        break
+                    nb = nb2
+                    self.unrolled[nb["path"]] = self.unrolled.get(nb["path"], 0) + 1
+            except Exception:       # a shape the transformation does not understand: analyse the loop as written
+                nb = bd
+            out.append(nb)
+        return dict(d, bodies=out)
+
+    def _unroll_one(self, bd):
+        blocks = bd["blocks"]
+        if not any(b_["term"]["t"] == "call" and ((b_["term"].get("func") or {}).get("k") or {}).get("fn", {}).get("path") == "std::iter::Iterator::next" for b_ in blocks):
+            return None
+        tmp = Body(bd, self)
+        loops = tmp.loops()
+        if not loops:
+            return None
+        nloc = len(bd["locals"])
+
+        def single_def(l):
+            ds = tmp.defs(l)
+            return ds[0] if len(ds) == 1 and not ds[0][4] else None
+
+        def chase_array(op, depth=0):
+            """(array local, by_ref) when `op` is (a borrow / unsizing of) a local defined once by an array aggregate."""
+            pl = op_place(op)
+            by_ref = False
+            for _ in range(8):
+                if pl is None:
+                    return None
+                if pl["p"] and not (len(pl["p"]) == 1 and proj_key(pl["p"][0]) == "*"):
+                    return None
+                dd = single_def(pl["l"])
+                if dd is None or (1 <= pl["l"] <= bd["argc"]):
+                    return None
+                (bb, idx, kind, payload, lhs_proj) = dd
+                if kind != "assign":
+                    return None
+                rv = payload["rv"]
+                if rv["r"] == "agg" and rv.get("ak") == "array":
+                    return (pl["l"], by_ref, rv, bb)
+                if rv["r"] == "use":
+                    pl = op_place(rv["o"])
+                    continue
+                if rv["r"] == "cast" and "Unsize" in rv.get("ck", ""):
+                    pl = op_place(rv["o"])
+                    continue
+                if rv["r"] == "ref" and not rv.get("mut"):
+                    by_ref = True
+                    pl = rv["p"]
+                    continue
+                return None
+            return None
+        for (head, lblocks) in sorted(loops, key=lambda x: len(x[1])):
+            t = blocks[head]["term"]
+            fn = ((t.get("func") or {}).get("k") or {}).get("fn", {}) if t["t"] == "call" else {}
+            if fn.get("path") != "std::iter::Iterator::next" or len(t.get("args", [])) != 1 or t.get("target") is None or len(lblocks) > 60:
+                continue
+            if not re.match(r"^(std::array::IntoIter<|std::slice::Iter<)", fn.get("self_ty") or ""):
+                continue
+            # the iterator: `&mut it` (possibly reborrowed), it = into_iter(X) / iter(X)
+            itl = None
+            pl = op_place(t["args"][0])
+            for _ in range(6):
+                if pl is None or (pl["p"] and [proj_key(x) for x in pl["p"]] != ["*"]):
+                    pl = None
+                    break
+                dd = single_def(pl["l"])
+                if dd is None:
+                    # defined in several copies of an enclosing unrolled loop or assigned by the into_iter call itself
+                    break
+                (bb, idx, kind, payload, lhs_proj) = dd
+                if kind == "call":
+                    break
+                rv = payload["rv"]
+                if rv["r"] == "ref":
+                    pl = rv["p"]
+                    if not pl["p"]:
+                        # &mut it
+                        d2 = single_def(pl["l"])
+                        if d2 is not None and d2[2] == "assign" and d2[3]["rv"]["r"] == "use":
+                            pl = op_place(d2[3]["rv"]["o"])
+                            itl = d2
+                        continue
+                    continue
+                if rv["r"] == "use":
+                    pl = op_place(rv["o"])
+                    continue
+                pl = None
+                break
+            if pl is None:
+                continue
+            dd = single_def(pl["l"])
+            if dd is None or dd[2] != "call" or dd[0] in lblocks:
+                continue
+            ic = blocks[dd[0]]["term"]
+            ifn = ((ic.get("func") or {}).get("k") or {}).get("fn", {})
+            if not (ifn.get("path") == "std::iter::IntoIterator::into_iter" or (ifn.get("path") or "").endswith("<impl [T]>::iter")) or len(ic.get("args", [])) != 1:
+                continue
+            arr = chase_array(ic["args"][0])
+            if arr is None:
+                continue
+            (al, by_ref, arv, abb) = arr
+            ops = arv["ops"]
+            if not (1 <= len(ops) <= 16) or abb in lblocks:
+                continue
+            # the array is only read (its single borrow feeds the iterator)
+            muts = [u for u in tmp.uses(al) if u[2] == "refmut"]
+            if muts:
+                continue
+            lset = set(lblocks)
+            # locals private to the loop: every definition inside, no mention outside
+            def mentions(x, acc):
+                if isinstance(x, dict):
+                    if "l" in x and "p" in x and isinstance(x["l"], int):
+                        acc.add(x["l"])
+                        for e in x["p"]:
+                            if isinstance(e, dict) and "i" in e:
+                                acc.add(e["i"])
+                        return
+                    for v in x.values():
+                        mentions(v, acc)
+                elif isinstance(x, list):
+                    for v in x:
+                        mentions(v, acc)
+            inside, outside = set(), set()
+            scratch = set()
+            for i, b_ in enumerate(blocks):
+                # unwind-only (cleanup) blocks drop the loop's temporaries: that does not make them live across iterations
+                acc = inside if i in lset else (scratch if b_.get("cleanup") else outside)
+                mentions(b_["stmts"], acc)
+                mentions(b_["term"], acc)
+            # a local all of whose definitions sit inside the loop is a per-iteration temporary (Rust's definite-assignment rule:
+            # it cannot be read after the loop unless the loop assigned it on every path); the last copy - the one the loop is
+            # left from when the array is exhausted - keeps the original names, so code after the loop reads what it read before
+            private = set()
+            for l in inside:
+                if l == 0 or l <= bd["argc"]:
+                    continue
+                ds = tmp.defs(l)
+                if ds and all(x[0] in lset for x in ds):
+                    private.add(l)
+            n = len(ops)
+            locals_ = [dict(x) for x in bd["locals"]]
+            new_blocks = [dict(b_) for b_ in blocks]
+            order = sorted(lset)
+            ety = arv.get("ety") or "?"
+            # element k as an operand of the item's type
+            elem_ops = []
+            pre_stmts = []
+            line = t.get("line")
+            for k, o in enumerate(ops):
+                if not by_ref:
+                    elem_ops.append(o)
+                    continue
+                pl_o = op_place(o)
+                if pl_o is None or pl_o["p"]:
+                    # a constant / projected element: give it a home of its own
+                    locals_.append({"ty": ety, "name": None})
+                    hl = len(locals_) - 1
+                    pre_stmts.append({"k": "assign", "lhs": {"l": hl, "p": []}, "rv": {"r": "use", "o": o}, "line": line, "exp": ["unrolled-elem"]})
+                    pl_o = {"l": hl, "p": []}
+                locals_.append({"ty": "&" + ety, "name": None})
+                rl = len(locals_) - 1
+                pre_stmts.append({"k": "assign", "lhs": {"l": rl, "p": []}, "rv": {"r": "ref", "mut": False, "p": {"l": pl_o["l"], "p": []}}, "line": line, "exp": ["unrolled-elem"]})
+                elem_ops.append({"c": {"l": rl, "p": []}})
+
+            def remap(x, lmap):
+                if isinstance(x, dict):
+                    if "l" in x and "p" in x and isinstance(x["l"], int):
+                        return {"l": lmap.get(x["l"], x["l"]), "p": [({"i": lmap.get(e["i"], e["i"])} if isinstance(e, dict) and "i" in e else (dict(e) if isinstance(e, dict) else e)) for e in x["p"]]}
+                    return {k_: remap(v, lmap) for k_, v in x.items()}
+                if isinstance(x, list):
+                    return [remap(v, lmap) for v in x]
+                return x
+            # the block that branches on the discriminant of next()'s result
+            sw_block = None
+            sb_ = t["target"]
+            if sb_ in lset and blocks[sb_]["term"]["t"] == "switch":
+                dpl = op_place(blocks[sb_]["term"]["d"])
+                dsts = [st for st in blocks[sb_]["stmts"] if st.get("k") == "assign" and dpl is not None and st["lhs"]["l"] == dpl["l"] and st["rv"]["r"] == "discr"
+                        and st["rv"]["p"]["l"] == t["dest"]["l"] and not st["rv"]["p"]["p"]]
+                if dsts:
+                    sw_block = sb_
+            if sw_block is None:
+                continue
+            dead = len(new_blocks) + n * len(order)      # one shared `unreachable` block for the impossible back edge of the last copy
+            copies = []
+            for k in range(n + 1):
+                if k == n:
+                    bmap = {b_: b_ for b_ in order}
+                    lmap = {}
+                else:
+                    bmap = {b_: len(new_blocks) + k * len(order) + j for j, b_ in enumerate(order)}
+                    lmap = {}
+                    for l in sorted(private):
+                        locals_.append(dict(bd["locals"][l]))
+                        lmap[l] = len(locals_) - 1
+                copies.append((bmap, lmap))
+            extra = []
+            for k, (bmap, lmap) in enumerate(copies):
+                nxt_head = copies[k + 1][0][head] if k < n else dead
+                for b_ in order:
+                    src = blocks[b_]
+                    stm = remap(src["stmts"], lmap)
+                    tt = remap(src["term"], lmap)
+
+                    def tgt(x):
+                        if x is None:
+                            return None
+                        if x == head and x in lset:
+                            return nxt_head if b_ != head or True else x
+                        return bmap.get(x, x)
+                    if b_ == sw_block:
+                        # the `match next() { None => break, Some(x) => .. }` that follows: decided in every copy
+                        want = 1 if k < n else 0
+                        chosen = None
+                        for v, x in src["term"]["targets"]:
+                            if int(v) == want:
+                                chosen = x
+                        if chosen is None:
+                            chosen = src["term"]["otherwise"]
+                        tt = {"t": "goto", "target": tgt(chosen), "line": src["term"].get("line"), "col": src["term"].get("col"), "exp": ["unrolled"]}
+                    elif b_ == head:
+                        dest = tt["dest"]
+                        if k < n:
+                            item = remap(elem_ops[k], {})
+                            rv = {"r": "agg", "ak": "adt", "adt": "std::option::Option", "variant": "Some", "vidx": 1, "fields": ["0"], "ops": [item]}
+                        else:
+                            rv = {"r": "agg", "ak": "adt", "adt": "std::option::Option", "variant": "None", "vidx": 0, "fields": [], "ops": []}
+                        stm = stm + [{"k": "assign", "lhs": dest, "rv": rv, "line": line, "exp": ["unrolled-next"]}]
+                        tt = {"t": "goto", "target": bmap.get(src["term"]["target"], src["term"]["target"]), "line": line, "col": src["term"].get("col"), "exp": ["unrolled"]}
+                    else:
+                        kk = tt["t"]
+                        if kk == "goto":
+                            tt["target"] = tgt(src["term"]["target"])
+                        elif kk == "switch":
+                            tt["targets"] = [[v, tgt(x)] for v, x in src["term"]["targets"]]
+                            tt["otherwise"] = tgt(src["term"]["otherwise"])
+                        elif kk in ("call", "drop", "assert"):
+                            if src["term"].get("target") is not None:
+                                tt["target"] = tgt(src["term"]["target"])
+                            if src["term"].get("unwind") is not None:
+                                tt["unwind"] = bmap.get(src["term"]["unwind"], src["term"]["unwind"])
+                    nbk = {"stmts": stm, "term": tt, "cleanup": src.get("cleanup", False)}
+                    if k == n:
+                        new_blocks[b_] = nbk
+                    else:
+                        extra.append((bmap[b_], nbk))
+            for (i_, nbk) in sorted(extra, key=lambda x: x[0]):
+                assert i_ == len(new_blocks)
+                new_blocks.append(nbk)
+            assert dead == len(new_blocks)
+            new_blocks.append({"stmts": [], "term": {"t": "unreachable", "line": line, "col": None, "exp": ["unrolled"]}, "cleanup": False})
+            # the loop is entered at the first copy
+            first_head = copies[0][0][head]
+            if first_head != head:
+                for i_, b_ in enumerate(new_blocks):
+                    if i_ in lset or i_ >= len(blocks):
+                        continue
+                    tt = b_["term"]
+                    kk = tt["t"]
+                    nt = None
+                    if kk == "goto" and tt["target"] == head:
+                        nt = dict(tt, target=first_head)
+                    elif kk == "switch" and (tt["otherwise"] == head or any(x == head for _v, x in tt["targets"])):
+                        nt = dict(tt, targets=[[v, first_head if x == head else x] for v, x in tt["targets"]], otherwise=first_head if tt["otherwise"] == head else tt["otherwise"])
+                    elif kk in ("call", "drop", "assert") and tt.get("target") == head:
+                        nt = dict(tt, target=first_head)
+                    if nt is not None:
+                        new_blocks[i_] = dict(b_, term=nt)
+            # element homes are set up where the array is built
+            if pre_stmts:
+                ab = dict(new_blocks[abb])
+                st_list = list(ab["stmts"])
+                pos = len(st_list)
+                for i_, st in enumerate(st_list):
+                    if st.get("k") == "assign" and st["lhs"]["l"] == al and not st["lhs"]["p"]:
+                        pos = i_      # before the aggregate moves the elements into the array
+                        break
+                if by_ref and all(op_place(o) is not None and not op_place(o)["p"] and "m" in o for o in ops):
+                    # moved-from element locals stay readable in the facts (no liveness is modelled): borrow them as they are
+                    pass
+                ab["stmts"] = st_list[:pos] + pre_stmts + st_list[pos:]
+                new_blocks[abb] = ab
+            return dict(bd, blocks=new_blocks, locals=locals_)
+        return None
 
     def _canonicalise_renames(self, d):
         """Rules refer to functions by the names they had when the rules were written (known_fns.txt /
